@@ -302,6 +302,9 @@ def run(case, ctx):
         v1, v2 = verdict(c), verdict(c2)
         if v1 != v2:
             ctx.violate(f"C11/behaviour-rule/{key_tail}", f"rule verdicts differ: original {v1}, rebuilt {v2}; json: {text}")
+    ok, j4 = call(c.to_json_like)
+    if not ok or canon(j4) != canon(j):
+        ctx.violate(f"C11/not-stable-after-use/{key_tail}", f"serialising the original again after it was used gives {j4!r}, first {j!r}")
     ok, j3 = call(c2.to_json_like)
     if not ok or canon(j3) != canon(j):
         ctx.violate(f"C11/not-idempotent/{key_tail}", f"second serialisation {j3!r} differs from the first {j!r}")
